@@ -28,8 +28,12 @@ SPECIAL = [255, 256, 65535, 65536, 65537, 2 ** 24 - 1, 70000, 128, 129]
 
 def relabel(rng, a, hi):
     labs = [int(x) for x in np.unique(a) if x]
-    kind = rng.choice(["compact", "reverse", "random", "special", "mid16", "top24", "mid16", "top24"])
-    if kind == "compact":
+    kind = rng.choice(["compact", "reverse", "random", "special", "mid16", "top24", "mid16", "top24", "mult256"])
+    if kind == "mult256":
+        # labels whose low byte / low 16 bits are zero (a narrowing cast maps them to background)
+        pool = [256 * k for k in range(1, 256) if 256 * k <= hi] + [65536 * k for k in range(1, 200) if 65536 * k <= hi]
+        new = rng.sample(pool, len(labs)) if len(pool) >= len(labs) else labs
+    elif kind == "compact":
         new = list(range(1, len(labs) + 1))
     elif kind == "reverse":
         new = list(reversed(labs))
@@ -65,12 +69,25 @@ def run(ctx):
         p, r = impl.rand_pair(rng, max_side=6, max_inst=4, dtype="uint8")
         cfg = gen_cfg(rng, it)
         cfg["imetrics"] = [m for m in cfg["imetrics"]]
+        cfg["gmetrics"] = rng.choice([[], ["DSC"], ["DSC", "IOU"], ["IOU", "RVD"]])
         if it == "semantic":
             # for semantic input the labels are class labels: rename classes jointly (same class map on both arrays)
             p, r = (np.where(p != 0, 1 + (p % 2), 0)).astype("int16"), (np.where(r != 0, 1 + (r % 2), 0)).astype("int16")
         dt2 = rng.choice(["uint8", "uint16", "uint32", "uint64"] if it != "semantic" else ["uint8", "int16", "int32", "int64", "uint16"])
         hi = min(int(np.iinfo(dt2).max), 2 ** 24 - 1)
-        if it == "unmatched":
+        if it == "unmatched" and rng.random() < 0.15 and p.any() and r.any():
+            # rename so that the largest labels sit where the integer code of a (prediction, reference) pair crosses 2^8/2^16/2^32
+            bits = {"uint8": 8, "uint16": 16, "uint32": 32, "uint64": 32}[dt2]
+            pmax, rmax = impl.code_boundary_labels(rng, bits)
+            pl, rl = [int(x) for x in np.unique(p) if x], [int(x) for x in np.unique(r) if x]
+            if pmax >= len(pl) and rmax >= len(rl):
+                mp_p = dict(zip(pl, [pmax] + rng.sample(range(1, pmax), len(pl) - 1)))
+                mp_r = dict(zip(rl, [rmax] + rng.sample(range(1, rmax), len(rl) - 1)))
+                k1 = k2 = "codeboundary"
+            else:
+                mp_p, k1 = relabel(rng, p, hi)
+                mp_r, k2 = relabel(rng, r, hi)
+        elif it == "unmatched":
             mp_p, k1 = relabel(rng, p, hi)
             mp_r, k2 = relabel(rng, r, hi)
         else:
